@@ -278,12 +278,15 @@ pub fn execute(sc: &K17) -> Outcome {
                     out.probe("down_on_airplanes_tab");
                 }
                 // distinct-state measure: (tab, event kind, size class)
-                let mut s = state;
+                let mut s = Fnv::new();
                 s.u64(tab as u64);
-                s.str(&json.chars().take(24).collect::<String>());
+                s.str(&json.chars().take(28).collect::<String>());
                 s.u64(sc.cols as u64 / 40);
+                s.u64(sc.rows as u64 / 10);
+                s.u64(in_window.min(3) as u64);
+                s.u64(sc.lines.len().min(3) as u64);
                 out.states.push(s.finish());
-                state.u64(1);
+                let _ = &mut state;
             }
             LogEv::Poll { hit: false, .. } => in_window = 0,
             LogEv::Connect { what, .. } => {
